@@ -160,9 +160,10 @@ mod verif_pool {
     pub const MAX_REQ: usize = 40;
 
     /// One allocation of `n` (symbolic, <= MAX_REQ) elements of `U` from a pool that was given
-    /// buffers `A` x cap_a and `B` x cap_b (concrete). The pool itself is forgotten at the end
-    /// (dropping it is checked by `pool_drop_frees_each_buffer_once`; it dominates CBMC time).
-    fn check_alloc<A, B, U>(min_size: usize, cap_a: usize, cap_b: usize, twice: bool) {
+    /// buffers `A` x cap_a and `B` x cap_b (concrete). Returns the live state so that callers can
+    /// continue. Pools are forgotten, not dropped, at the end of the alloc harnesses (dropping is
+    /// checked by `pool_drop_frees_each_buffer_once`; it dominates CBMC time).
+    fn alloc_first<A, B, U>(min_size: usize, cap_a: usize, cap_b: usize) -> (BufferPool, Vec<U>, usize, usize) {
         let pool = BufferPool::new().with_min_size(min_size);
         pool.add(Vec::<A>::with_capacity(cap_a));
         pool.add(Vec::<B>::with_capacity(cap_b));
@@ -183,20 +184,29 @@ mod verif_pool {
         unsafe { std::ptr::write_bytes(v.as_mut_ptr(), 0, n) };
         kani::cover!(len1 + 1 == len0); // served from the pool
         kani::cover!(len1 == len0 && n > 0); // pool bypassed / nothing fits
+        (pool, v, n, len0)
+    }
 
-        if twice {
-            let mut w: Vec<U> = pool.alloc(n);
-            assert!(w.len() == 0);
-            assert!(w.capacity() >= n, "alloc returned less than the requested capacity");
-            if n > 0 {
-                assert!(w.as_ptr() != v.as_ptr(), "same buffer handed to two holders");
-                assert!(!in_pool(&pool, &w), "buffer handed out but still in the pool");
-            }
-            unsafe { std::ptr::write_bytes(w.as_mut_ptr(), 0, n) };
-            kani::cover!(len0 == 2 && pool.len() == 0); // both served from the pool
-            drop(w);
-        }
+    fn check_alloc<A, B, U>(min_size: usize, cap_a: usize, cap_b: usize) {
+        let (pool, v, _n, _len0) = alloc_first::<A, B, U>(min_size, cap_a, cap_b);
         // freed with Layout::array::<U>(capacity): Kani checks it against the allocation
+        drop(v);
+        std::mem::forget(pool);
+    }
+
+    /// A second holder asks while the first still holds its buffer.
+    fn check_alloc_twice<A, B, U>(min_size: usize, cap_a: usize, cap_b: usize) {
+        let (pool, v, n, len0) = alloc_first::<A, B, U>(min_size, cap_a, cap_b);
+        let mut w: Vec<U> = pool.alloc(n);
+        assert!(w.len() == 0);
+        assert!(w.capacity() >= n, "alloc returned less than the requested capacity");
+        if n > 0 {
+            assert!(w.as_ptr() != v.as_ptr(), "same buffer handed to two holders");
+            assert!(!in_pool(&pool, &w), "buffer handed out but still in the pool");
+        }
+        unsafe { std::ptr::write_bytes(w.as_mut_ptr(), 0, n) };
+        kani::cover!(len0 == 2 && pool.len() == 0); // both served from the pool
+        drop(w);
         drop(v);
         std::mem::forget(pool);
     }
@@ -204,40 +214,40 @@ mod verif_pool {
     #[kani::proof]
     #[kani::unwind(6)]
     pub fn alloc_same_type() {
-        check_alloc::<f32, f32, f32>(0, 8, 32, false);
+        check_alloc::<f32, f32, f32>(0, 8, 32);
     }
 
     #[kani::proof]
     #[kani::unwind(6)]
     pub fn alloc_mixed_types() {
         // same size+align (u32 -> f32) is reusable, the u64 buffer is not
-        check_alloc::<u32, u64, f32>(16, 33, 8, false);
+        check_alloc::<u32, u64, f32>(16, 33, 8);
     }
 
     #[kani::proof]
     #[kani::unwind(6)]
     pub fn alloc_misaligned_candidates() {
         // [u8; 4] x 32 has the byte size of f32 x 32 but alignment 1
-        check_alloc::<[u8; 4], f32, f32>(0, 32, 3, false);
+        check_alloc::<[u8; 4], f32, f32>(0, 32, 3);
     }
 
     #[kani::proof]
     #[kani::unwind(6)]
     pub fn alloc_default_min_size() {
         // min_size 128 (the default): f32 x 32 = 128 bytes is kept, f32 x 8 is freed by add()
-        check_alloc::<f32, f32, f32>(128, 8, 32, false);
+        check_alloc::<f32, f32, f32>(128, 8, 32);
     }
 
     #[kani::proof]
     #[kani::unwind(6)]
     pub fn alloc_twice_same_type() {
-        check_alloc::<f32, f32, f32>(0, 8, 32, true);
+        check_alloc_twice::<f32, f32, f32>(0, 8, 32);
     }
 
     #[kani::proof]
     #[kani::unwind(6)]
     pub fn alloc_twice_mixed_types() {
-        check_alloc::<u32, f32, u32>(0, 33, 33, true);
+        check_alloc_twice::<u32, f32, u32>(0, 33, 33);
     }
 
     /// add(): the buffer is either kept (pool grows by one) or freed; never both, never twice.
